@@ -134,8 +134,8 @@ K1 = "K1-bitwise-with-constant-result-unconstrained"
 K2 = "K2-divmod-quotient-not-range-checked"
 
 
-def judge_single(cfg, name, args, budget=30000):
-    prog = opgrid.single(cfg, name, args)
+def judge_single(cfg, name, args, budget=30000, mode="normal"):
+    prog = opgrid.single(cfg, name, args, mode)
     m = ir.run_program(prog)
     if m.raised is not None:
         return "raised", None, prog, 0, m
@@ -175,14 +175,17 @@ def grid_shard(cells, b, p, pool_extra=1, budget=30000):
             pools = [pools[0], [-1, 0, 2], [0, 1, 3]]
         if name == "pow":
             pools[1] = [v for v in pools[1] if 0 <= v <= 3] if ts[1] in "ib" else pools[1]
-        for vals in itertools.product(*pools):
+        combos = [(vals, "normal") for vals in itertools.product(*pools)]
+        # a thinned copy of the cell inside a true secret guard that contains a public-condition block (and the reverse nesting)
+        combos += [(vals, ("guard1p", "guardp1", "guard1")[k % 3]) for k, (vals, _) in enumerate(combos[::3])]
+        for vals, mode in combos:
             args = [(t, "priv" if i % 2 == 0 else "pub", v) for i, (t, v) in enumerate(zip(ts, vals))]
-            status, cex, prog, nodes, m = judge_single(cfg, name, args, budget)
-            labels = ["op:" + name, "status:" + status]
+            status, cex, prog, nodes, m = judge_single(cfg, name, args, budget, mode)
+            labels = ["op:" + name, "status:" + status, "mode:" + mode]
             nt = status in ("complete", "heuristic", "counterexample") and nodes >= 2
             if status in ("budget", "partial"):
                 stats.inconclusive[status] += 1
-            stats.case([name, ts, [str(v) for v in vals], p, b], nt, labels, sample_cap=2)
+            stats.case([name, ts, [str(v) for v in vals], p, b, mode], nt, labels, sample_cap=2)
             if cex is not None:
                 why, cex2 = explain(m, len(args), budget, candidates=lambda v: cand_real(m, v))
                 if why == "inconclusive":
@@ -197,7 +200,7 @@ def grid_shard(cells, b, p, pool_extra=1, budget=30000):
                     if not why:
                         prog = dict(prog, pin_known=True)
                     found[key] = {"case": prog, "key": key,
-                                  "msg": "%s%r on %s (p=%s, bitlength %d): result %s is %d honestly but the constraints also admit %s with the operands unchanged" % (
+                                  "msg": ("" if mode == "normal" else "[%s] " % mode) + "%s%r on %s (p=%s, bitlength %d): result %s is %d honestly but the constraints also admit %s with the operands unchanged" % (
                                       name, tuple(vals), ts, p, b, cex["path"], ir.centered(cex["honest"], m.p), cex["other"])}
     stats.violations = list(found.values())
     return stats
